@@ -19,9 +19,9 @@ RULE = ("one run = one generated document, 1-3 (line, clone) pairs of any record
         "interleaved edits per pair; distinct = distinct (record type, edit kind, side) tuples x line digest")
 PROBES = ["connected_original", "standalone_original", "edit_clone", "edit_original", "inplace_list",
           "inplace_cigar", "inplace_oriented", "inplace_json", "inplace_numarray", "header_clone",
-          "edit_applied"]
+          "edit_applied", "inplace_lastpos"]
 EDITS = ["set_tag", "del_tag", "set_pos", "list_append", "list_pop", "cigar_op", "oriented", "json_inplace",
-         "numarray_append", "fieldarray_append", "set_datatype", "trace_inplace", "list_item_inplace"]
+         "numarray_append", "fieldarray_append", "set_datatype", "trace_inplace", "list_item_inplace", "lastpos_inplace"]
 
 
 def gen(streams, tier, i):
@@ -55,7 +55,7 @@ def mutable_values(line):
     out = []
     for f in list(line.positional_fieldnames) + list(line.tagnames):
         o = core.call(line.get, f)
-        if o.ok and isinstance(o.value, (list, dict, gfapy.OrientedLine, gfapy.FieldArray)):
+        if o.ok and isinstance(o.value, (list, dict, gfapy.OrientedLine, gfapy.FieldArray, gfapy.LastPos)):
             out.append((f, o.value))
     return out
 
@@ -161,6 +161,15 @@ def apply_edit(line, op, st, connected):
     if e == "fieldarray_append" and fas:
         f, x = fas[j % len(fas)]
         return core.call(x.append, x._data[0] if len(x._data) else 1), "append to field array %s" % f
+    if e == "lastpos_inplace":
+        lp = [(f, x) for f, x in mv if isinstance(x, gfapy.LastPos)]
+        if lp:
+            f, x = lp[j % len(lp)]
+            st.count("probe.inplace_lastpos")
+
+            def h():
+                x.value = x.value + 1 + j % 3
+            return core.call(h), "in-place change of the last position %s" % f
     if e == "trace_inplace":
         tr = [(f, x) for f, x in mv if isinstance(x, gfapy.Trace)]
         if tr:
